@@ -11,7 +11,8 @@ from .. import fileio as fio
 from . import c01, c04, c05, c06, c08
 
 THEOREMS = ["C14_decision_open", "C14_decision_write", "C14_bit", "C14_one_vlr", "C14_hidden", "C14_no_dup",
-            "C14_user_vlrs", "C14_transparent", "stub_codecLaws", "sessionC_form", "C14_file_roundtrip", "C14_file_transparent"]
+            "C14_user_vlrs", "C14_transparent", "stub_codecLaws", "sessionC_form", "C14_file_roundtrip", "C14_file_transparent", "stub_appendLaws", "readFileC_form",
+            "C14_append_roundtrip"]
 
 
 def laszip_count_in_file(data):
@@ -233,11 +234,15 @@ def run(ck):
                 meta.append((inp, "u" * len(las.vlrs) + "Z" + " " + "u" * len(a.vlrs)))
                 # ---- seek-and-read histories on the compressed file
                 ops = [c05.rand_op(ck.rng, n) for _ in range(ck.rng.randrange(1, 15))]
+                if n >= 4:
+                    # always: two reads of the same size, two chunks of the same size (all results are kept until the end)
+                    ops = [("r", 2), ("r", 2), ("s", 0, 0), ("n", 2), ("n", 2)] + ops
                 full = las.points.array.tobytes()
                 size = las.header.point_format.size
                 spec = c05.SpecCursor(n)
                 with laspy.open(io.BytesIO(cdata), laz_backend=rb) as rd:
                     its = {}
+                    kept = []
                     for op in ops:
                         want = spec.apply(op)
                         try:
@@ -267,6 +272,12 @@ def run(ck):
                         s0, l0 = int(s0), int(l0)
                         if pts.array.tobytes() != full[s0 * size:(s0 + l0) * size]:
                             ck.fail(f"compressed file: {c05.tok(op)} did not return records [{s0}, {s0 + l0})", inp)
+                        kept.append((pts, s0, l0, op))
+                    # what each call returned is kept until the end of the history: later calls must not alter it
+                    for pts, s0, l0, op in kept:
+                        if pts.array.tobytes() != full[s0 * size:(s0 + l0) * size]:
+                            ck.fail(f"compressed file: the records returned by {c05.tok(op)} were altered by later calls on the reader", inp)
+                            break
                 # ---- non-seekable source (serial backend), EVLRs deferred
                 from .. import streams as st
                 try:
@@ -284,6 +295,10 @@ def run(ck):
                     for r in extra:
                         ap.append_points(c06.rec_of(las, r))
                 p2 = c06.append_session(pdata, [c06.rec_of(las, r) for r in extra])
+                if bk == LazBackend.Lazrs or True:
+                    # the whole append session on the model (backend double written out): byte for byte
+                    lines.append(f"cz append {lazrs.CHUNK_SIZE} {c08.hx(cdata)} " + " ".join(fio.op_points(fmt, size, r) for r in extra))
+                    meta.append((dict(inp, what="compressed append session bytes", appended=[len(r) // size for r in extra]), "ok " + c08.hx(c2.getvalue())))
                 a2 = laspy.read(io.BytesIO(c2.getvalue()))
                 b2 = laspy.read(io.BytesIO(p2))
                 if canon_no_layout(a2) != canon_no_layout(b2):
@@ -306,7 +321,7 @@ def run(ck):
             if o != exp and bad is None:
                 k0 = next((i for i in range(min(len(o), len(exp))) if o[i] != exp[i]), min(len(o), len(exp)))
                 bad = f"{inp}: model '{o[:200]}' impl '{exp[:200]}' (first difference at char {k0}: model ...{o[max(0, k0 - 20):k0 + 40]} impl ...{exp[max(0, k0 - 20):k0 + 40]})"
-    ck.oblige("correspondence compress/glue: model decisions / compressed bit / LasZip bookkeeping / whole compressed files byte for byte (sessionC on the written-out backend double) / readFileC == laspy's glue on the backend double", "correspondence", bad is None, bad or "")
+    ck.oblige("correspondence compress/glue: model decisions / compressed bit / LasZip bookkeeping / whole compressed files byte for byte (sessionC and appendSessionC on the written-out backend double) / readFileC == laspy's glue on the backend double", "correspondence", bad is None, bad or "")
     ck.failures.sort(key=lambda f: (f["input"].get("n", 0), len(str(f["input"]))))
     if ck.tier == "thorough":
-        ck.leanchecker(["LasModel.Props.C14"])
+        ck.leanchecker(["LasModel.Props.C14", "LasModel.Props.C14File", "LasModel.Props.C14Append"])
